@@ -224,7 +224,7 @@ theorem consLoop_spec (adj : UInt8 → UInt8) : ∀ (sA sB qA qB : Bytes) (qM qm
   | nA :: sA, nB :: sB, a :: qA, b :: qB, qM, qm, h1, h2, h3 => by
     simp only [List.length_cons, Nat.add_right_cancel_iff] at h1 h2 h3
     obtain ⟨i1, i2, i3⟩ := consLoop_spec adj sA sB qA qB
-      (if a > b then a else if b > a then b else qM) (if a > b then b else if b > a then a else qm) h1 h2 h3
+      (if b > a then b else a) (if b > a then a else b) h1 h2 h3
     refine ⟨by simp [consLoop, i1], by simp [consLoop, i2], ?_⟩
     intro k hk
     cases k with
